@@ -58,14 +58,16 @@ def explore(chk):
         op = b.add("sami.plan", "|".join(core.enc_list(t, lambda ab: capio.fr(ab[0]) + ";" + capio.fr(ab[1])) for t in times))
         jobs.append((abstract, op))
     out = b.run() if chk.driver_ok else None
-    for (abstract, op) in jobs:
+    shared_w = {"dfxp": pycaption.DFXPWriter(), "sami": pycaption.SAMIWriter()}
+    for ji_, (abstract, op) in enumerate(jobs):
         langs = list(abstract.keys())
+        reuse = bool(ji_ % 2)          # every other set is written by writer objects that have written the earlier sets
         src = [(l, [(s, " ".join(" ".join(n[1] for n in ns if n[0] == "T").split())) for (s, e, ns) in caps]) for l, caps in abstract.items()]
         base_case = {"languages": langs, "set": {l: [(s, e, [n[1] for n in ns if n[0] == "T"]) for (s, e, ns) in caps] for l, caps in abstract.items()}}
         # ---------------- DFXP
         cs = capio.build_set(abstract)
-        doc = pycaption.DFXPWriter().write(cs)
-        case = dict(base_case, format="dfxp", output=doc[:3000])
+        doc = (shared_w["dfxp"] if reuse else pycaption.DFXPWriter()).write(cs)
+        case = dict(base_case, format="dfxp", writer_object="reused" if reuse else "fresh", output=doc[:3000])
         chk.case(key=json.dumps(base_case, sort_keys=True) + "dfxp", nontrivial=len(langs) > 1, sample={"languages": langs, "format": "dfxp"} if chk.count_get("n") == 4 else None)
         chk.count("n"); chk.count("dfxp")
         try:
@@ -84,8 +86,8 @@ def explore(chk):
         except Exception as e:
             chk.property_failure(dict(case, error=repr(e)[:300]), "dfxp multi-language write/read raised %s" % type(e).__name__)
         # ---------------- SAMI
-        doc = pycaption.SAMIWriter().write(cs)
-        case = dict(base_case, format="sami", output=doc[:3000])
+        doc = (shared_w["sami"] if reuse else pycaption.SAMIWriter()).write(cs)
+        case = dict(base_case, format="sami", writer_object="reused" if reuse else "fresh", output=doc[:3000])
         chk.case(key=json.dumps(base_case, sort_keys=True) + "sami", nontrivial=len(langs) > 1)
         chk.count("n"); chk.count("sami")
         try:
@@ -141,6 +143,27 @@ def explore(chk):
         chk.count("n"); chk.count("vtt_lang")
         if got != [t for (_, t) in dict(src)[l]]:
             chk.property_failure(dict(base_case, format="webvtt", lang=l, parsed=str(got)[:800]), "webvtt lang= does not write exactly the named language's cues")
+    # ---------------- SAMI: the language of a paragraph comes from its class (through the style sheet) or from a lang attribute
+    for k_ in range(30 if chk.tier == "quick" else 600):
+        second = rng.choice(["fr", "de", "es"])
+        t1, t2 = rng.choice([1000, 2500]), rng.choice([4000, 6500])
+        klass = rng.choice(["NOTE", "NOTE", "MISSING", None])          # a class without lang in the sheet / not in the sheet / no class
+        order = rng.random() < 0.5
+        attrs = ([] if klass is None else ['class="%s"' % klass]) + ['lang="%s"' % second]
+        if not order:
+            attrs.reverse()
+        p2 = "<P %s>" % " ".join(attrs)
+        doc = ('<SAMI><HEAD><STYLE TYPE="text/css"><!--\nP { font-family: Arial; }\n.ENCC { Name: English; lang: en-US; }\n.NOTE { color: yellow; }\n--></STYLE></HEAD><BODY>\n'
+               '<SYNC start="%d"><P class="ENCC">hello one</P>%sother one</P></SYNC>\n<SYNC start="%d"><P class="ENCC">hello two</P>%sother two</P></SYNC>\n'
+               '<SYNC start="%d"><P class="ENCC">&nbsp;</P>%s&nbsp;</P></SYNC>\n</BODY></SAMI>') % (t1, p2, t2, p2, t2 + 2000, p2)
+        chk.case(key=("sami_lang_attr", doc), nontrivial=True); chk.count("sami_lang_attr")
+        try:
+            got = obs(pycaption.SAMIReader().read(doc))
+        except Exception as e:
+            chk.property_failure({"document": doc, "error": repr(e)[:300]}, "sami reader raised on a two-language document"); continue
+        want = [("en-US", [(t1 * 1000, "hello one"), (t2 * 1000, "hello two")]), (second, [(t1 * 1000, "other one"), (t2 * 1000, "other two")])]
+        if got != want:
+            chk.property_failure({"document": doc, "read": str(got), "spec": str(want)}, "sami reader: a paragraph is not filed under the language its class or lang attribute names")
     # ---------------- reader lang= and DFXP language fallback
     srt = "1\n00:00:01,000 --> 00:00:02,000\nhi\n"
     for l in ["de", "x-klingon", "en-US"]:
